@@ -29,3 +29,12 @@ PROPS['C16'] = dict(
     assumptions=[],
     domain=[],
 )
+
+PROPS['C10'] = dict(
+    title='Whitespace operations and repair are inverse; repair only touches whitespace',
+    groups=[dict(template='c10_whitespace.rs')],
+    claim='',
+    not_covered=[],
+    assumptions=[],
+    domain=[],
+)
